@@ -434,6 +434,28 @@ theorem verify_iff (row : VGen.VersionRow) (e : Event) (sd : Except Err (Option 
         exact hall s hs
       simp [this]
 
+/-- **The bulk entry point gives one verdict per event, in order, and each is the verdict of that event alone**:
+    no verdict is carried from one event (or one request) to another, whatever else is in the batch — events sharing
+    an ID (room versions 1–2), repeated events, events with several required servers. -/
+theorem verify_all_pointwise (row : VGen.VersionRow) (es : List Event) (sd : Event → Except Err (Option Bytes))
+    (valid : Event → Request → Bool) :
+    (verifyAllEventSignatures row es sd valid (fun _ => false)).length = es.length ∧
+    ∀ (i : Nat) (h : i < es.length),
+      ((verifyAllEventSignatures row es sd valid (fun _ => false))[i]? = some (.ok ()) ↔
+        ∃ l, requiredSigners row es[i] (sd es[i]) = .ok l ∧
+          ∀ s ∈ l, valid es[i] ⟨s, es[i].originServerTS, strictValidity row⟩ = true) := by
+  refine ⟨by simp [verifyAllEventSignatures], fun i h => ?_⟩
+  simp only [verifyAllEventSignatures, List.getElem?_map, List.getElem?_eq_getElem h, Option.map_some, Option.some.injEq]
+  exact verify_iff row es[i] (sd es[i]) (valid es[i])
+
+/-- … so a batch verdict does not depend on the rest of the batch: the verdict of an event is the same in any two
+    batches (at whatever positions). -/
+theorem verify_all_batch_irrelevant (row : VGen.VersionRow) (es es' : List Event) (sd : Event → Except Err (Option Bytes))
+    (valid : Event → Request → Bool) (i j : Nat) (hi : i < es.length) (hj : j < es'.length) (he : es[i] = es'[j]) :
+    (verifyAllEventSignatures row es sd valid (fun _ => false))[i]? =
+      (verifyAllEventSignatures row es' sd valid (fun _ => false))[j]? := by
+  simp [verifyAllEventSignatures, List.getElem?_map, List.getElem?_eq_getElem hi, List.getElem?_eq_getElem hj, he]
+
 /-- The same against the specification: when the property's required set is `l`, the event verifies iff
     every server in `l` is answered valid at origin_server_ts under the rule the property names
     (strict from room version 5 on). -/
